@@ -9,7 +9,7 @@
    `Resolve returns a graph without a graph-level error` is [resolve_fuel ... = Ok g]. *)
 From Coq Require Import String.
 From DepsDev Require Import Lib.Base Gen.PypiTables Resolve.Pypi Resolve.Pypi_lists_proofs Resolve.Pypi_inv_proofs
-     Resolve.Pypi_graph_proofs Resolve.Pypi_spec Resolve.Pypi_examples Resolve.Pypi_proofs.
+     Resolve.Pypi_graph_proofs Resolve.Pypi_fuel_proofs Resolve.Pypi_total_proofs Resolve.Pypi_spec Resolve.Pypi_examples Resolve.Pypi_proofs.
 
 Section C08.
   Variable c_versions : bytes -> res (list vkey).
@@ -56,6 +56,40 @@ Section C08.
   Theorem C08_graph_total : forall fuel st,
     WF -> ResolveState fuel = Ok st -> exists g, Resolve fuel = Ok g.
   Proof. intros fuel st W. exact (graph_total _ _ _ _ _ _ _ _ _ W fuel st). Qed.
+
+  (* ---- totality of the resolution (the PyPI part of C04) ----
+     For EVERY client, every marker/semver oracle, every root and every round limit, Resolve returns
+     a graph, a graph-level error or a hard error: never a panic, never out of fuel.  No hypothesis
+     on the client: its answers are finite lists or errors, the oracles answer a value or an error
+     (that markers.go and semver do so is C16/C04), and nothing in resolve.go indexes, dereferences
+     or recurses without a bound.  The fuel of the main loop IS the round limit (at zero the model
+     answers errTooDeep), so there is no hidden fuel to choose; the inner loops carry their own,
+     explicit bounds, proved sufficient below. *)
+  Theorem C08_resolve_total : forall maxRounds,
+    match Resolve maxRounds with Panic _ => False | OutOfFuel => False | _ => True end.
+  Proof. exact (resolve_fine c_versions c_requirements c_matching marker_true has_pre constraint_ok match_pre ver_lt root). Qed.
+
+  (* the backtracking loop pops at least one state per iteration: the height of the stack bounds it *)
+  Theorem C08_backtrack_terminates : forall fuel states,
+    (0 < fuel)%nat -> (length states <= fuel)%nat ->
+    match backtrack fuel states with Panic _ => False | OutOfFuel => False | _ => True end.
+  Proof. exact backtrack_fine. Qed.
+
+  (* filterSlice examines every element once: the length of the slice bounds it *)
+  Theorem C08_filter_slice_terminates : forall (A : Type) (pred : A -> res bool) fuel l,
+    (forall x, match pred x with Panic _ => False | OutOfFuel => False | _ => True end) ->
+    (length l <= fuel)%nat ->
+    match filter_slice fuel pred l with Panic _ => False | OutOfFuel => False | _ => True end.
+  Proof. intros A pred fuel l H. exact (filter_slice_fine pred H fuel l). Qed.
+
+  (* hasRouteToRoot marks one more pinned version at every level of its recursion: the number of
+     pinned versions not yet visited bounds its depth (no stack overflow), for any state *)
+  Theorem C08_has_route_terminates : forall st fuel v c,
+    (exists p, In (p, v) (mapping st)) -> (unvisited st c < fuel)%nat ->
+    exists r, has_route fuel st v c = Ok r.
+  Proof.
+    intros st fuel v c P H. destruct (has_route_total st fuel v c P H) as (r & R & _). exists r. exact R.
+  Qed.
 
   (* ---- the clauses of the property ---- *)
 
@@ -130,6 +164,10 @@ End C08.
 Print Assumptions C08_pin_preserves_Inv.
 Print Assumptions C08_backtrack_preserves_Inv.
 Print Assumptions C08_resolve_returns_satisfied.
+Print Assumptions C08_resolve_total.
+Print Assumptions C08_backtrack_terminates.
+Print Assumptions C08_filter_slice_terminates.
+Print Assumptions C08_has_route_terminates.
 Print Assumptions C08_graph_total.
 Print Assumptions C08_one_version.
 Print Assumptions C08_root_fixed.
